@@ -48,6 +48,12 @@ Theorem C15_sub_instance : forall (S : Type) (lik : nat -> S -> res) (its : list
               /\ item_lik lik it' (w, parts) = lik (item_id it) s.
 Proof. exact @indexed_sub_instance. Qed.
 
+Theorem C15_sum_sub_instances : forall (S : Type) (lik : nat -> S -> res) (its : list item) (w : S) (parts : list S),
+  length parts = length its ->
+  serial (item_lik lik) (reindex_from 0 its) (w, parts)
+  = spec_sum (fun (p : nat * S) (_ : unit) => lik (fst p) (snd p)) (combine (map item_id its) parts) tt.
+Proof. exact @indexed_sum. Qed.
+
 (* ---- C15_history_free: pool = serial, for every schedule, partition and history ----------------- *)
 
 Theorem C15_partition : forall (A : Type) (cores : nat) (l : list A), 1 <= cores -> concat (split_procs cores l) = l.
